@@ -24,5 +24,7 @@ def run(tier, seed):
     run_rt(rep, [rt_walk.VisitC()], tier)
     rep.assumptions.append('CodeBuilder.has_available_blocks / max_num_blocks = 20 (outsourcer, trusted); CPython limits: 20 nested blocks, 100 indentation levels')
     rep.assumptions.append('rule recursion depth is bounded by memory only because every rule invocation is a request to the trampoline _run (C07 wiring), whose stack is a heap list')
+    # the scope tracker that decides which names are local / captured (bounded stand-in for a data-structure contract)
+    wiring.symbol_counter_obligations(rep, tier)
     dependency_layer(rep, tier)
     return rep.finish()
